@@ -69,9 +69,19 @@ fn with_methods(mut hs: v::HandlerSet, methods: &[Value], id: i64) -> v::Handler
 }
 fn nparams(segs: &Value) -> usize { arr(segs).iter().filter(|sg| s(&sg["k"]) == "P").count() }
 
+/// the gate of a mounted application: a fang of its own that refuses every request but OPTIONS before the handler
+#[derive(Clone)]
+struct Gate;
+impl FangAction for Gate {
+    async fn fore<'a>(&'a self, req: &'a mut Request) -> Result<(), Response> {
+        if req.method == Method::OPTIONS { Ok(()) } else { Err(Response::Unauthorized().with_text("gate")) }
+    }
+}
+
 fn build_app(apps: &[Value], idx: usize, t: &router::Table, cors: Option<CORS>, pbase: usize) -> Ohkami {
     let app = &apps[idx - 1];
-    let mut o = match cors { Some(c) => Ohkami::with((c,), ()), None => Ohkami::new(()) };
+    let gated = !arr(&app["fangs"]).is_empty();
+    let mut o = match cors { Some(c) => Ohkami::with((c,), ()), None if gated => Ohkami::with((Gate,), ()), None => Ohkami::new(()) };
     for it in arr(&app["items"]) {
         // param names differ from item to item, as in real applications (two registrations of one path may name its params differently)
         let tag = if s(&it["t"]) == "route" { format!("h{}", i(&it["h"])) } else { format!("m{}", i(&it["app"])) };
@@ -298,5 +308,5 @@ pub fn gen(rng: &mut Rng, idx: usize) -> Value {
         }
     }
     json!({"id": idx, "seed": rng.next() % 1000, "policy": policy,
-           "apps": items.iter().map(|its| json!({"fangs": [], "items": its})).collect::<Vec<_>>(), "reqs": reqs})
+           "apps": items.iter().enumerate().map(|(a, its)| json!({"fangs": if a > 0 && (idx + a) % 2 == 0 { vec![1] } else { vec![] }, "items": its})).collect::<Vec<_>>(), "reqs": reqs})
 }
